@@ -155,6 +155,19 @@ func (e *Env) hasFeature(l, f, v string) bool {
 // ---------------------------------------------------------------------------- executing an operation
 
 // RenderScript renders requested postings as Numscript: one send statement per posting.
+// RenderScriptVarD renders ps with the destination of the last posting passed as the account variable $d.
+func (e *Env) RenderScriptVarD(ps []Posting) string {
+	if len(ps) == 0 {
+		return e.RenderScript(ps)
+	}
+	body := e.RenderScript(ps[:len(ps)-1])
+	last := e.RenderScript(ps[len(ps)-1:])
+	i := strings.LastIndex(last, "destination = @")
+	j := strings.Index(last[i:], "\n")
+	last = last[:i] + "destination = $d" + last[i+j:]
+	return "vars {\n  account $d\n}\n" + body + last
+}
+
 func (e *Env) RenderScript(ps []Posting) string {
 	var sb strings.Builder
 	for _, p := range ps {
@@ -221,7 +234,11 @@ func (e *Env) Exec(ctx context.Context, worker string, op Op) Res {
 	case "create":
 		body := map[string]any{}
 		if op.Script {
-			body["script"] = map[string]any{"plain": e.RenderScript(op.Ps) + RenderScriptMeta(op), "vars": map[string]any{}}
+			if op.VarD != "" {
+				body["script"] = map[string]any{"plain": e.RenderScriptVarD(op.Ps) + RenderScriptMeta(op), "vars": map[string]any{"d": op.VarD}}
+			} else {
+				body["script"] = map[string]any{"plain": e.RenderScript(op.Ps) + RenderScriptMeta(op), "vars": map[string]any{}}
+			}
 		} else {
 			ps := make([]any, 0, len(op.Ps))
 			force := false
@@ -409,8 +426,8 @@ func (e *Env) classify(op Op, r *stack.Resp) Res {
 		res.Err = "no_postings"
 	case code == "METADATA_OVERRIDE":
 		res.Err = "meta_override"
-	case code == "COMPILATION_FAILED":
-		res.Err = "compile"
+	case code == "COMPILATION_FAILED", code == "VALIDATION" && strings.Contains(msg, "failed to set vars from JSON"):
+		res.Err = "compile" // v1 answers VALIDATION where v2 answers COMPILATION_FAILED for an invalid script variable
 	default:
 		res.Err = "validation"
 	}
